@@ -513,17 +513,14 @@ wait:
 }
 
 // VerifC05Run executes one case on a fresh store under dir (call it in a child process: a deadlocked
-// process cannot be recovered).  emit is called with the observation as soon as it is complete.
-func VerifC05Run(c VerifC05Case, dir string) (obs VerifC05Obs) {
+// process cannot be recovered).  The observation is complete when it returns; the returned function closes
+// the store and removes the directory (the caller prints the observation first and bounds the time it gives
+// to that clean-up: closing is not part of the property).
+func VerifC05Run(c VerifC05Case, dir string) (obs VerifC05Obs, cleanup func()) {
 	if c.Procs > 0 {
 		runtime.GOMAXPROCS(c.Procs)
 	}
 	env, cleanup, err := vc05Setup(c, dir)
-	defer func() {
-		if obs.Outcome != "hang" {
-			cleanup()
-		}
-	}()
 	if err != nil {
 		obs.Outcome = "setup-error"
 		obs.Detail = err.Error()
